@@ -270,6 +270,9 @@ impl Prop for C12 {
             out.label_if(want < noswap, "swap_used");
         }
 
+        // the same strings asked in the other unit first (and then in this one): an answer must not
+        // depend on what was asked before
+        let _ = edit::distance(&c.a, &c.b, !g, c.swap, c.ws_only, false);
         // --- distance
         let d = edit::distance(&c.a, &c.b, g, c.swap, c.ws_only, false);
         ensure!(out, d == want as f64, "distance({:?},{:?},g={g},swap={},ws={}) = {d}, reference {want}", c.a, c.b, c.swap, c.ws_only);
@@ -298,6 +301,7 @@ impl Prop for C12 {
             ensure!(out, dac <= d + dbc, "triangle inequality violated: d(a,c)={dac} > d(a,b)={d} + d(b,c)={dbc}");
         }
         // --- prefix distance (the reference costs |b| full DPs: long pairs use every 8th prefix as a bound only)
+        let _ = edit::operations(&c.a, &c.b, !g, c.swap, c.ws_only);
         let pd = edit::prefix_distance(&c.a, &c.b, g, c.swap, c.ws_only, false);
         if bv.len() > 48 {
             // long pairs: one-pass reference (reversed strings), exact
@@ -338,6 +342,7 @@ fn finish_ops(c: &Case, av: &[&str], bv: &[&str], want: usize, mut out: Outcome)
         let mism = edit::distances(&[c.a.as_str()], &[c.b.as_str(), c.c.as_str()], g, c.swap, c.ws_only, false);
         ensure!(out, mism.is_err(), "distances() accepted lists of different length");
         // --- operations
+        let _ = edit::prefix_distance(&c.a, &c.b, !g, c.swap, c.ws_only, false);
         let ops = edit::operations(&c.a, &c.b, g, c.swap, c.ws_only);
         ensure!(out, ops.len() == want, "operations() has {} steps, distance is {want}: {ops:?}", ops.len());
         if !c.swap {
